@@ -65,6 +65,8 @@ def cases(draw, two_d=False):
             "faults": [[draw(st.floats(0, 1, exclude_max=True)), draw(st.sampled_from(KINDS)), draw(st.floats(0, 1, exclude_max=True))]
                        for _ in range(nf)],
             "ranks": draw(st.lists(st.integers(0, 20), min_size=0, max_size=20)),
+            # the failing range read is the last of the call's concurrent reads to complete
+            "fault_last": draw(st.integers(0, 3)) == 0,
             "multithreading": draw(st.booleans())}
 
 
@@ -72,8 +74,9 @@ def make_backend(case, path, total=0):
     """(total: number of requests of the undisturbed run, for the completion-order controller)"""
     if case["backend"] == "local":
         return iomodel.CountingFile(path)
-    ctl = iomodel.CompletionController(case.get("ranks") or [], total) if case.get("ranks") else None
-    return iomodel.CountingBlob(path, controller=ctl)
+    last = bool(case.get("fault_last"))
+    ctl = iomodel.CompletionController(case.get("ranks") or [], total) if (case.get("ranks") or last) else None
+    return iomodel.CountingBlob(path, controller=ctl, fault_last=last)
 
 
 def axis_len(T, m):
@@ -205,7 +208,7 @@ def run_case(case, ctx):
     op = ops.concretise(T, case["a"])
     if op is None or op["m"] not in ops.methods_for(T, reader_only=True):
         return {"sig": None, "labels": ["method-not-applicable"]}
-    outcome, got, L0 = attempt(dict(case, ranks=[]), path, T, op, None, 0)
+    outcome, got, L0 = attempt(dict(case, ranks=[], fault_last=False), path, T, op, None, 0)
     if outcome != "ok":
         raise Violation(f"exception:{op['m']}", f"fault-free run failed: {got!r}")
     kind, want = ops.expected(T, op)
@@ -218,8 +221,9 @@ def run_case(case, ctx):
     fam = case["file"]["family"] if (T.is_2d or T.structured) else "irregular"
     pos = "first" if pk[0][0] == 0 else ("last" if pk[0][0] == len(L) - 1 else "middle")
     nontriv = pk[0][0] > 0 or len(L) > 1 or bool(case.get("ranks"))
+    order = "fault-last" if (case.get("fault_last") and case["backend"] == "blob") else bool(case.get("ranks"))
     hows = sorted({f["how"] for f in case.get("after") or []})
-    return {"sig": [op["m"], case["backend"], pk[0][1], pos, fam, len(pk), bool(case.get("ranks")), hows] if (nontriv and res != "not-reached") else None,
+    return {"sig": [op["m"], case["backend"], pk[0][1], pos, fam, len(pk), order, hows] if (nontriv and res != "not-reached") else None,
             "labels": [res, op["m"], case["backend"], pk[0][1]] + ["after:" + h for h in hows] + (["with-earlier-call"] if case.get("pre") else [])}
 
 
